@@ -32,7 +32,7 @@ Domain(kind) ==
         version |-> {"1", "0", "2"},
         chainId |-> {"right", "other"},
         fused  |-> {"available", "tooMuch"},
-        descendants |-> {"none", "one"}]
+        descendants |-> {"none", "contractSendLike", "userSendLike"}]
        @@ (IF kind = "userSend"
            THEN [amount |-> {"zero", "one", "balance", "balance+1", "2^255"},
                  token  |-> {"znn", "qsr", "unknown"},
@@ -58,8 +58,8 @@ FieldsValid(kind, b) ==
        /\ b.btype = "own" /\ b.version = "1" /\ b.chainId = "right"
        /\ b.fused = "available"                                                \* PlasmaOK
        /\ b.descendants = "none"                                               \* user blocks carry no descendants
-       /\ (kind = "userSend" => b.amount \in {"zero", "one", "balance"} /\ (b.token \in {"znn", "qsr"} \/ b.amount = "zero")   \* AmountRange, Funds
-                               /\ (b.token = "qsr" => b.amount # "balance"))            \* the ZNN balance is not held in QSR
+       /\ (kind = "userSend" => b.amount \in {"zero", "one", "balance"}                      \* AmountRange, Funds ("balance" = what the account holds of the block's token)
+                               /\ (b.token = "unknown" => b.amount \in {"zero", "balance"}))   \* nothing is held of an unknown token
        /\ (kind = "userReceive" => b.from = "pendingToMe")                     \* confirmed, unreceived, addressed to the receiver
 
 \* which fields the hash covers (all of them here: the uncovered ones are C13's subject)
